@@ -211,7 +211,13 @@ func SetAdj(a *JAdjust, it Item, who, n int) {
 	case "cdi":
 		a.CdiDevices = append(a.CdiDevices, it.Key)
 	case "env":
-		a.Env = append(a.Env, JKV{it.Key, zeroOr(n, fmt.Sprintf("e-%d-%d", who, n))})
+		// every fourth value is not ASCII (two-byte UTF-8 sequences whose second byte lies in the C1
+		// range 0x80-0x9f: ß Ö Ł): values are passed on byte for byte
+		v := fmt.Sprintf("e-%d-%d", who, n)
+		if (who+n)%4 == 3 {
+			v = fmt.Sprintf("Grüße-%d-%d-ÖŁ", who, n)
+		}
+		a.Env = append(a.Env, JKV{it.Key, zeroOr(n, v)})
 	case "args":
 		a.Args = []string{fmt.Sprintf("cmd-p%d", who), fmt.Sprintf("arg%d", n)}
 	case "rlimit":
@@ -227,7 +233,9 @@ func SetAdj(a *JAdjust, it Item, who, n int) {
 		}
 	case "cgroupsPath":
 		a.HasLinux = true
-		a.CgroupsPath = fmt.Sprintf("/cg/p%d/%d", who, n)
+		// the path is the plugin's to choose and passed on as it is: clean absolute (cgroupfs driver),
+		// slice:prefix:name (systemd driver), relative, with a trailing or a doubled slash
+		a.CgroupsPath = fmt.Sprintf([]string{"/cg/p%d/%d", "system.slice:nri-p%d:%d", "cg/p%d/%d", "/cg/p%d/%d/", "//cg//p%d/%d"}[(who+n)%5], who, n)
 	case "oomScoreAdj":
 		a.HasLinux = true
 		if n == ZeroN {
@@ -363,6 +371,11 @@ func FullResources(r *rand.Rand, populate float64) *JResources {
 		SetRes(res, Item{"hugepage", "8M"}, 80, 0)
 		SetRes(res, Item{"unified", "req.unified"}, 80, 0)
 	}
+	// … and a hugepage limit of a size the plugins set too (the runtime's request and a plugin's
+	// update then both name it: the entry must carry the plugin's value after the runtime's)
+	if populate >= 1 || (r != nil && r.Float64() < populate/2) {
+		SetRes(res, Item{"hugepage", Keys("hugepage")[0]}, 80, 1)
+	}
 	return res
 }
 
@@ -442,7 +455,8 @@ func Systematic() []sysCase {
 		"noop-then-rm", "noop-then-rmset", "noop-reset-then-rmset",
 		"near-original", "near-original-rmset", "near-earlier-rmset",
 		"zero-single", "zero-adjacent", "zero-then-value", "ignored-partial-unified",
-		"two-updates-second-ignored", "two-updates-first-ignored", "two-updates-then-taken"}
+		"two-updates-second-ignored", "two-updates-first-ignored", "two-updates-then-taken",
+		"parent-removed", "parent-removed-apart", "rm-set-rm", "rm-set-rm-set"}
 	for _, it := range AllItems() {
 		for _, p := range paths {
 			if p.path == "update" && !IsResource(it.Kind) {
@@ -469,6 +483,12 @@ func Systematic() []sysCase {
 					continue
 				}
 				if strings.HasPrefix(shape, "zero-") && !HasZero(it.Kind) {
+					continue
+				}
+				if strings.HasPrefix(shape, "rm-set-rm") && !(p.path == "adjust" && Removable[it.Kind] && it.Kind != "args") {
+					continue
+				}
+				if strings.HasPrefix(shape, "parent-removed") && !(p.path == "adjust" && (it.Kind == "mount" || it.Kind == "device")) {
 					continue
 				}
 				if shape == "ignored-partial-unified" && !(p.path == "update" && it.Kind == "unified") {
@@ -505,6 +525,36 @@ func Systematic() []sysCase {
 						setOn(&rsp[a+1], p.path, p.target, otherItem(it), a+1, 0, false)
 					case "single-prepopulated":
 						setOn(&rsp[a+1], p.path, p.target, it, a+1, 0, false)
+					case "rm-set-rm", "rm-set-rm-set":
+						// removed, set again, removed again (each by another plugin, lone removals), then
+						// a later plugin looks (and in the second shape sets it once more): the second
+						// removal must take effect in the view and in the reply like the first
+						primeOriginal(&in, p.path, p.target, it, 7, 0)
+						rsp[a].Adjust = NewAdjust()
+						RemoveAdj(rsp[a].Adjust, it, true)
+						setOn(&rsp[a+1], p.path, p.target, it, a+1, 0, false)
+						rsp[a+2].Adjust = NewAdjust()
+						RemoveAdj(rsp[a+2].Adjust, it, true)
+						if shape == "rm-set-rm-set" {
+							setOn(&rsp[a+3], p.path, p.target, it, a+3, 1, false)
+						} else {
+							setOn(&rsp[a+3], p.path, p.target, otherItem(it), a+3, 0, false)
+						}
+					case "parent-removed", "parent-removed-apart":
+						// an earlier plugin sets an item and one NESTED below it (/m0 and /m0/sub); a
+						// later plugin removes only the outer one - that releases the outer item and
+						// nothing else - and the nested one is set again by it (or by a plugin after
+						// it) without a removal: a collision
+						child := Item{it.Kind, it.Key + "/sub"}
+						setOn(&rsp[a], p.path, p.target, it, a, 0, false)
+						setOn(&rsp[a], p.path, p.target, child, a, 0, false)
+						rsp[a+1].Adjust = NewAdjust()
+						RemoveAdj(rsp[a+1].Adjust, it, true)
+						if shape == "parent-removed" {
+							SetAdj(rsp[a+1].Adjust, child, a+1, 1)
+						} else {
+							setOn(&rsp[a+3], p.path, p.target, child, a+3, 1, false)
+						}
 					case "rm-then-set":
 						setOn(&rsp[a], p.path, p.target, it, a, 0, false)
 						setOn(&rsp[a+2], p.path, p.target, it, a+2, 1, false)
